@@ -39,8 +39,10 @@
      kind  block type ("fuel", "control", "reflector"); the valid-block-type filter selects on it
      alt   FALSE: components flagged fuel/clad, TRUE: fuel/bond  (by-component averaging needs equal flags)
      h     height; every block has the same components with hot areas CompArea, so volume = Area*h, component volume a_c*h
-     w     the weighting parameter value (flux);  bu  percentBu;  hm  massHmBOL
-     n     n[c][k] number density of nuclide k in component c (0 where c does not hold k; Holds[c] = keys of the dict)
+     w, wd the weighting parameter value (flux) is the fraction w / wd, wd in {1, 2, 4} (values below 1 matter: "or 1.0" replaces
+           a zero only);  bu  percentBu;  hm  massHmBOL
+     n     n[c][k] number density of nuclide k in component c; the component holds (has a key for) the nuclides of Holds[c] and
+           any other nuclide of positive density, so members of one collection may hold different nuclide sets
      t     t[c] component temperature
      ord   the order in which the components are stored in the block (a permutation of the sorted order; nothing may depend on it)
      lfp   the block carries a lumped-fission-product collection
@@ -94,7 +96,8 @@ Idx(s)   == 1..Len(s)
 Elig(b, f)  == b.kind \in FilterKinds(f)
 CandPos(ms, f) == SelectSeq([i \in Idx(ms) |-> i], LAMBDA i : Elig(ms[i], f))     \* positions of the candidates
 Cand(ms, f) == LET ps == CandPos(ms, f) IN Concrete([j \in Idx(ps) |-> ms[ps[j]]])
-WP(b, rep)  == IF rep = "FluxWeightedAverage" /\ b.w # 0 THEN b.w ELSE 1          \* p[weightingParam] or 1.0
+\* p[weightingParam] or 1.0, in units of 1/4 for the flux-weighted option (all its weights scale alike); 1 for the others
+WP(b, rep)  == IF rep = "FluxWeightedAverage" THEN (IF b.w # 0 THEN b.w * (4 \div b.wd) ELSE 4) ELSE 1
 Wt(b, rep)  == WP(b, rep) * Vol(b)
 Refused(cs, rep) == rep = "FluxWeightedAverage" /\ (\E i \in Idx(cs) : cs[i].w # 0) /\ (\E i \in Idx(cs) : cs[i].w = 0)
 
@@ -107,11 +110,11 @@ WMean(cs, wt(_), val(_), over) ==
 DensNum(b, k)   == ISum([c \in Comps |-> b.n[c][k] * CompArea[c]])
 BlockDens(b, k) == RFrac(DensNum(b, k), Area)                                              \* homogenised over the block
 CompMass(b, c)  == CVol(b, c) * ISum([k \in Nucs |-> b.n[c][k] * AW[k]])                  \* up to Avogadro's constant
-HoldersOf(k)    == {c \in Comps : k \in Holds[c]}
-AtomsT(b, k)    == ISum([c \in Comps |-> IF k \in Holds[c] THEN b.n[c][k] * CVol(b, c) * b.t[c] ELSE 0])
-Atoms(b, k)     == ISum([c \in Comps |-> IF k \in Holds[c] THEN b.n[c][k] * CVol(b, c) ELSE 0])
-HoldVT(b, k)    == ISum([c \in Comps |-> IF k \in Holds[c] THEN CVol(b, c) * b.t[c] ELSE 0])
-HoldV(b, k)     == ISum([c \in Comps |-> IF k \in Holds[c] THEN CVol(b, c) ELSE 0])
+Held(b, c, k)   == k \in Holds[c] \/ b.n[c][k] > 0
+AtomsT(b, k)    == ISum([c \in Comps |-> IF Held(b, c, k) THEN b.n[c][k] * CVol(b, c) * b.t[c] ELSE 0])
+Atoms(b, k)     == ISum([c \in Comps |-> IF Held(b, c, k) THEN b.n[c][k] * CVol(b, c) ELSE 0])
+HoldVT(b, k)    == ISum([c \in Comps |-> IF Held(b, c, k) THEN CVol(b, c) * b.t[c] ELSE 0])
+HoldV(b, k)     == ISum([c \in Comps |-> IF Held(b, c, k) THEN CVol(b, c) ELSE 0])
 
 (* ---------- the averages ---------- *)
 AvgDens(cs, rep, k)        == WMean(cs, LAMBDA b : Wt(b, rep), LAMBDA b : DensNum(b, k), Area)
@@ -153,8 +156,13 @@ CylSourceIdx(cs, ps) == CHOOSE j \in Idx(cs) : Cardinality({i \in Idx(cs) : CylB
 NoRep(out) == [out |-> out, mode |-> "", src |-> 0, lfp |-> FALSE, dens |-> <<>>, cdens |-> <<>>, ctemp |-> <<>>, ntemp |-> <<>>, bu |-> RZero]
 \* block-level averaging writes the homogenised average back with Block.setNumberDensities, which gives every component
 \* that holds the nuclide the same density (composites.updateNumberDensities: "evenly across all components that contain it")
-Spread(c, k, avg) == IF k \in Holds[c] THEN RDiv(RMul(avg, RInt(Area)), RInt(ISum([d \in Comps |-> IF k \in Holds[d] THEN CompArea[d] ELSE 0])))
-                     ELSE RZero
+\* (src = the copied first candidate, whose components decide where the nuclide goes; a nuclide no component of it holds is put
+\*  into every component: "This nuc doesn't exist in any children but is to be set. Evenly distribute it everywhere.")
+Spread(src, c, k, avg) ==
+    LET holders == {d \in Comps : Held(src, d, k)}
+    IN IF holders = {} THEN avg
+       ELSE IF c \in holders THEN RDiv(RMul(avg, RInt(Area)), RInt(ISum([d \in Comps |-> IF d \in holders THEN CompArea[d] ELSE 0])))
+       ELSE RZero
 RepOf(ms, opt) ==
     LET ps == CandPos(ms, opt.filter)
         cs == Cand(ms, opt.filter)
@@ -194,7 +202,7 @@ RepOf(ms, opt) ==
              bu    |-> Burnup(cs, r)]
        ELSE [out |-> "ok", mode |-> "block", src |-> ps[1], lfp |-> cs[1].lfp,
              dens  |-> [k \in Nucs |-> AvgDens(cs, r, k)],
-             cdens |-> [c \in Comps |-> [k \in Nucs |-> Spread(c, k, AvgDens(cs, r, k))]],
+             cdens |-> [c \in Comps |-> [k \in Nucs |-> Spread(cs[1], c, k, AvgDens(cs, r, k))]],
              ctemp |-> <<>>,
              ntemp |-> [k \in Nucs |-> NucTemp(cs, r, k)],
              bu    |-> Burnup(cs, r)]
